@@ -15,13 +15,14 @@ Proof.
 Qed.
 
 (* ---- id codecs ---- *)
+Definition b36_rt_ok (n : Z) : bool := match b36_parse2 (b36_pair n) with Some m => m =? n | None => false end.
+Definition hex_rt_ok (n : Z) : bool := match hex_parse2 (hex_pair n) with Some m => m =? n | None => false end.
+
 Lemma b36_roundtrip n : 0 <= n < 1296 -> b36_parse2 (b36_pair n) = Some n.
 Proof.
   intro H.
-  pose proof (range_check (fun n => match b36_parse2 (b36_pair n) with Some m => m =? n | None => false end) 1296) as R.
-  assert (E: forallb (fun k => (fun n => match b36_parse2 (b36_pair n) with Some m => m =? n | None => false end) (Z.of_nat k))
-                     (seq 0 1296) = true) by (vm_compute; reflexivity).
-  specialize (R E n H). cbv beta in R.
+  assert (R : b36_rt_ok n = true) by (apply (range_check b36_rt_ok 1296); [vm_compute; reflexivity | exact H]).
+  unfold b36_rt_ok in R.
   destruct (b36_parse2 (b36_pair n)); try discriminate. apply Z.eqb_eq in R. congruence.
 Qed.
 
@@ -31,10 +32,8 @@ Proof. intro H. unfold is_b36_pair. rewrite b36_roundtrip by exact H. reflexivit
 Lemma hex_roundtrip n : 0 <= n < 256 -> hex_parse2 (hex_pair n) = Some n.
 Proof.
   intro H.
-  pose proof (range_check (fun n => match hex_parse2 (hex_pair n) with Some m => m =? n | None => false end) 256) as R.
-  assert (E: forallb (fun k => (fun n => match hex_parse2 (hex_pair n) with Some m => m =? n | None => false end) (Z.of_nat k))
-                     (seq 0 256) = true) by (vm_compute; reflexivity).
-  specialize (R E n H). cbv beta in R.
+  assert (R : hex_rt_ok n = true) by (apply (range_check hex_rt_ok 256); [vm_compute; reflexivity | exact H]).
+  unfold hex_rt_ok in R.
   destruct (hex_parse2 (hex_pair n)); try discriminate. apply Z.eqb_eq in R. congruence.
 Qed.
 
@@ -56,13 +55,13 @@ Proof.
   intro H. apply (range_check show3_ok 1000); [vm_compute; reflexivity | exact H].
 Qed.
 
+Definition show3_rt_ok (m : Z) : bool :=
+  match parse_nat (show3 m) with Some v => (v =? m) && (length (show3 m) =? 3)%nat | None => false end.
 Lemma show3_parse m : 0 <= m < 1000 -> parse_nat (show3 m) = Some m /\ length (show3 m) = 3%nat.
 Proof.
   intro H.
-  pose proof (range_check (fun m => match parse_nat (show3 m) with Some v => (v =? m) && (length (show3 m) =? 3)%nat | None => false end) 1000) as R.
-  assert (E: forallb (fun k => (fun m => match parse_nat (show3 m) with Some v => (v =? m) && (length (show3 m) =? 3)%nat | None => false end)
-                                 (Z.of_nat k)) (seq 0 1000) = true) by (vm_compute; reflexivity).
-  specialize (R E m H). cbv beta in R.
+  assert (R : show3_rt_ok m = true) by (apply (range_check show3_rt_ok 1000); [vm_compute; reflexivity | exact H]).
+  unfold show3_rt_ok in R.
   destruct (parse_nat (show3 m)); try discriminate.
   apply andb_true_iff in R. destruct R as [R1 R2]. apply Z.eqb_eq in R1. apply Nat.eqb_eq in R2. subst. auto.
 Qed.
@@ -73,8 +72,11 @@ Lemma data_line_written m a b data :
 Proof.
   intro H. pose proof (show3_ok_all m H) as S. unfold show3_ok in S.
   destruct (show3 m) as [|x [|y [|z [|w r]]]]; try discriminate.
-  repeat (apply andb_true_iff in S; destruct S as [S ?]).
-  cbn [app data_line]. rewrite S, H2, H1. cbn [andb]. apply Z.eqb_eq in H0. rewrite H0. reflexivity.
+  apply andb_true_iff in S. destruct S as [S S4].
+  apply andb_true_iff in S. destruct S as [S S3].
+  apply andb_true_iff in S. destruct S as [S1 S2].
+  apply Z.eqb_eq in S4.
+  cbn [app]. unfold data_line. rewrite S1, S2, S3. cbn [andb]. rewrite S4. reflexivity.
 Qed.
 
 (* ================================================================ position arithmetic ================================================================ *)
@@ -220,3 +222,173 @@ Proof.
 Qed.
 Lemma text_eqb_refl t : text_eqb t t = true.
 Proof. induction t; cbn; auto. rewrite Z.eqb_refl. exact IHt. Qed.
+
+(* a written chart as plain lines: the initial tempo printed with 7 decimals (stands for str(float); used only to
+   state witnesses and examples about whole written files) *)
+Definition render_wline (w : wline) : text :=
+  match w with WText t => t | WBpm0 q => T_BPM ++ [32] ++ fmt_fixed 7 q end.
+
+(* ================================================================ lane lookup ================================================================ *)
+Lemma text_eqb_eq a : forall b, text_eqb a b = true -> a = b.
+Proof.
+  induction a as [|x a IH]; intros [|y b] H; cbn in H; try discriminate; auto.
+  apply andb_true_iff in H. destruct H as [H1 H2]. apply Z.eqb_eq in H1. subst. f_equal. auto.
+Qed.
+
+Lemma layout_rev_in_gen (v : Z) (lay : layout) : forall acc ch,
+  fold_left (fun acc kv => if snd kv =? v then Some (fst kv) else acc) lay acc = Some ch ->
+  acc = Some ch \/ In (ch, v) lay.
+Proof.
+  induction lay as [|[k w] lay IH]; intros acc ch H; cbn in H.
+  - left; assumption.
+  - apply IH in H. destruct H as [H|H]; [|right; right; assumption].
+    destruct (w =? v) eqn:E.
+    + apply Z.eqb_eq in E. inversion H; subst. right; left; reflexivity.
+    + left; assumption.
+Qed.
+Lemma layout_rev_in (lay : layout) v ch : layout_rev lay v = Some ch -> In (ch, v) lay.
+Proof.
+  intro H. apply layout_rev_in_gen in H. destruct H as [H|H]; [discriminate|assumption].
+Qed.
+
+Lemma dict_get_of_in (lay : layout) : no_dup_by text_eqb (map fst lay) = true ->
+  forall ch v, In (ch, v) lay -> dict_get ch lay = Some v.
+Proof.
+  induction lay as [|[k w] lay IH]; intros ND ch v Hin; [contradiction|].
+  cbn in ND. apply andb_true_iff in ND. destruct ND as [N1 N2]. apply negb_true_iff in N1.
+  destruct Hin as [E|Hin].
+  - inversion E; subst. cbn. rewrite text_eqb_refl. reflexivity.
+  - cbn. destruct (text_eqb ch k) eqn:Ek.
+    + apply text_eqb_eq in Ek. subst k. exfalso.
+      assert (existsb (text_eqb ch) (map fst lay) = true).
+      { apply existsb_exists. exists ch. split; [|apply text_eqb_refl].
+        apply in_map_iff. exists (ch, v). split; [reflexivity|assumption]. }
+      congruence.
+    + apply IH; assumption.
+Qed.
+
+(* on a layout satisfying the obligations, the writer's column -> channel lookup and the reader's channel -> column
+   lookup are inverse *)
+Theorem layout_rev_get (mk : Z) (lay : layout) v ch :
+  layout_ok mk lay = true -> layout_rev lay v = Some ch -> layout_get lay ch = Some v.
+Proof.
+  unfold layout_ok. intros H R. repeat (apply andb_true_iff in H; destruct H as [H ?]).
+  apply dict_get_of_in; [assumption|]. apply layout_rev_in. assumption.
+Qed.
+
+(* ================================================================ find_lcm ================================================================ *)
+Lemma nth_set_nth_eq {A} (l : list A) : forall i x d, (i < length l)%nat -> nth i (set_nth i x l) d = x.
+Proof. induction l; intros [|i] x d H; cbn in *; try lia; auto; try (apply IHl; lia). Qed.
+Lemma nth_set_nth_neq {A} (l : list A) : forall i k x d, i <> k -> nth k (set_nth i x l) d = nth k l d.
+Proof.
+  induction l; intros [|i] [|k] x d H; cbn; auto; try congruence; try (apply IHl; congruence).
+Qed.
+
+Section FindLcm.
+  Variable thr : Z.
+  Variable a0 : list Z.
+  Hypothesis pos : Forall (fun x => 0 < x) a0.
+  Let n := length a0.
+
+  (* entry k of the working state: either still alive with a value v that is a positive multiple of the input
+     (the input itself, or below the threshold) and no result yet; or consumed, with such a result *)
+  Definition entry_ok (x0 : Z) (ak : option Z) (rk : Z) : Prop :=
+    match ak with
+    | Some v => rk = 0 /\ (x0 | v) /\ 0 < v /\ (v = x0 \/ v < thr)
+    | None => (x0 | rk) /\ 0 < rk /\ rk < thr
+    end.
+  Definition inv (st : list (option Z) * list Z) : Prop :=
+    length (fst st) = n /\ length (snd st) = n /\
+    forall k, (k < n)%nat -> entry_ok (nth k a0 0) (nth k (fst st) None) (nth k (snd st) 0).
+
+  Lemma inv_init : inv (map Some a0, repeat 0 n).
+  Proof.
+    unfold inv; cbn [fst snd]. rewrite map_length, repeat_length. repeat split; auto.
+    intros k Hk. rewrite (nth_indep _ None (Some 0)) by (rewrite map_length; exact Hk).
+    rewrite (map_nth Some a0 0 k). cbn.
+    assert (nth k (repeat 0 n) 0 = 0) as -> by (apply nth_repeat).
+    split; [reflexivity|]. split; [apply Z.divide_refl|].
+    split; [|left; reflexivity].
+    rewrite Forall_forall in pos. apply pos. apply nth_In. exact Hk.
+  Qed.
+
+  Lemma inv_step i j st : (i < n)%nat -> (j < n)%nat -> inv st -> inv (lcm_step thr i j st).
+  Proof.
+    intros Hi Hj [La [Lr I]]. destruct st as [a r]; cbn [fst snd] in *. unfold lcm_step.
+    destruct (Nat.eqb i j) eqn:Eij; [repeat split; assumption|]. apply Nat.eqb_neq in Eij.
+    destruct (nth i a None) as [b|] eqn:Ei; [|repeat split; assumption].
+    destruct (nth j a None) as [c|] eqn:Ej; [|repeat split; assumption].
+    destruct (Z.lcm b c <? thr) eqn:El; [|repeat split; assumption]. apply Z.ltb_lt in El.
+    pose proof (I i Hi) as Ii. pose proof (I j Hj) as Ij. rewrite Ei in Ii. rewrite Ej in Ij.
+    cbn in Ii, Ij. destruct Ii as [Ri [Di [Pi _]]]. destruct Ij as [Rj [Dj [Pj _]]].
+    assert (Lpos : 0 < Z.lcm b c).
+    { pose proof (Z.lcm_nonneg b c). assert (Z.lcm b c <> 0) by (rewrite Z.lcm_eq_0; lia). lia. }
+    unfold inv; cbn [fst snd]. rewrite !set_nth_length. repeat split; auto.
+    intros k Hk. destruct (Nat.eq_dec k j) as [->|Nkj].
+    - rewrite nth_set_nth_eq by (rewrite set_nth_length; lia). rewrite nth_set_nth_eq by lia. cbn.
+      split; [|split; assumption]. eapply Z.divide_trans; [exact Dj|apply Z.divide_lcm_r].
+    - rewrite (nth_set_nth_neq _ j k) by congruence. rewrite (nth_set_nth_neq r j k) by congruence.
+      destruct (Nat.eq_dec k i) as [->|Nki].
+      + rewrite nth_set_nth_eq by lia. cbn. split; [exact Ri|]. split.
+        * eapply Z.divide_trans; [exact Di|apply Z.divide_lcm_l].
+        * split; [assumption|right; assumption].
+      + rewrite (nth_set_nth_neq _ i k) by congruence. apply I. exact Hk.
+  Qed.
+
+  Lemma inv_inner i (js : list nat) : (i < n)%nat -> Forall (fun j => (j < n)%nat) js ->
+    forall st, inv st -> inv (fold_left (fun st j => lcm_step thr i j st) js st).
+  Proof.
+    intros Hi. induction 1 as [|j js Hj _ IH]; intros st H; cbn; [assumption|].
+    apply IH. apply inv_step; assumption.
+  Qed.
+
+  Lemma seq_below : Forall (fun j => (j < n)%nat) (seq 0 n).
+  Proof. apply Forall_forall. intros j Hj. apply in_seq in Hj. lia. Qed.
+
+  Lemma inv_outer (is : list nat) : Forall (fun i => (i < n)%nat) is ->
+    forall st, inv st ->
+    inv (fold_left (fun st i => fold_left (fun st j => lcm_step thr i j st) (seq 0 n) st) is st).
+  Proof.
+    induction 1 as [|i is Hi _ IH]; intros st H; cbn; [assumption|].
+    apply IH. apply inv_inner; [assumption|apply seq_below|assumption].
+  Qed.
+  Lemma inv_loops st : inv st -> inv (lcm_loops thr n st).
+  Proof. unfold lcm_loops. apply inv_outer. apply seq_below. Qed.
+
+  Lemma lcm_finish_length (a : list (option Z)) : forall r, length a = length r -> length (lcm_finish a r) = length a.
+  Proof. induction a; intros [|y r] H; cbn in *; try lia; auto. Qed.
+  Lemma lcm_finish_nth (a : list (option Z)) : forall r k, length a = length r -> (k < length a)%nat ->
+    nth k (lcm_finish a r) 0 =
+      if nth k r 0 =? 0 then match nth k a None with Some v => v | None => 0 end else nth k r 0.
+  Proof.
+    induction a as [|x a IH]; intros [|y r] [|k] L Hk; cbn in *; try lia; auto.
+    apply IH; lia.
+  Qed.
+
+  (* find_lcm_spec: the result has one entry per input; every input divides its entry; every entry is positive and
+     is either the input itself or below the threshold (so inputs >= threshold are never merged) *)
+  Theorem find_lcm_spec_sec :
+    length (find_lcm thr a0) = n /\
+    forall k, (k < n)%nat ->
+      (nth k a0 0 | nth k (find_lcm thr a0) 0) /\ 0 < nth k (find_lcm thr a0) 0
+      /\ (nth k (find_lcm thr a0) 0 = nth k a0 0 \/ nth k (find_lcm thr a0) 0 < thr).
+  Proof.
+    unfold find_lcm. fold n.
+    pose proof (inv_loops _ inv_init) as H.
+    destruct (lcm_loops thr n (map Some a0, repeat 0 n)) as [a r]. destruct H as [La [Lr I]]. cbn [fst snd] in *.
+    split; [rewrite lcm_finish_length; lia|].
+    intros k Hk. rewrite lcm_finish_nth by lia.
+    specialize (I k Hk). unfold entry_ok in I.
+    destruct (nth k a None) as [v|].
+    - destruct I as [-> [D [P B]]]. cbn. auto.
+    - destruct I as [D [P B]]. destruct (nth k r 0 =? 0) eqn:E; [apply Z.eqb_eq in E; lia|]. auto.
+  Qed.
+End FindLcm.
+
+Theorem find_lcm_spec (thr : Z) (a : list Z) :
+  Forall (fun x => 0 < x) a ->
+  length (find_lcm thr a) = length a /\
+  forall k, (k < length a)%nat ->
+    (nth k a 0 | nth k (find_lcm thr a) 0) /\ 0 < nth k (find_lcm thr a) 0
+    /\ (nth k (find_lcm thr a) 0 = nth k a 0 \/ nth k (find_lcm thr a) 0 < thr).
+Proof. intro H. exact (find_lcm_spec_sec thr a H). Qed.
